@@ -270,6 +270,8 @@ func TestStreamDet(t *testing.T) {
 	if os.Getenv("VERIF_TIER") == "thorough" {
 		replicas = 4
 	}
+	// history files of earlier runs were recorded with whatever the code was then
+	_ = os.RemoveAll(filepath.Join(outDir(t), "detfiles"))
 	out := &streamOut{stats: map[string]int{}}
 	for i := 0; i < cases; i++ {
 		r := &Rng{s: seed*1000003 + uint64(i)*7919 + 101}
@@ -303,4 +305,33 @@ func TestStreamGenesis(t *testing.T) {
 		}
 	}
 	out.write(t, "genesis")
+}
+
+// TestReplayDetFiles re-executes, in this (another) process, the histories TestStreamDet wrote to
+// disk, and compares application hashes and transaction results with what that process observed.
+func TestReplayDetFiles(t *testing.T) {
+	dir := filepath.Join(outDir(t), "detfiles")
+	files, _ := filepath.Glob(filepath.Join(dir, "case*.json"))
+	sort.Strings(files)
+	out := &streamOut{stats: map[string]int{}}
+	w := &World{T: t}
+	w.emit("reset", "reset")
+	for i, f := range files {
+		diff, nTx, err := replayDetFile(f)
+		if err != nil {
+			w.hit("C20", "harness: cannot replay history file: "+firstLine(err.Error()))
+			continue
+		}
+		if diff != "" {
+			w.hit("C20", fmt.Sprintf("%s file=%d", diff, i))
+		}
+		out.stats["detx.files"]++
+		out.stats["detx.txs"] += nTx
+		w.emit(fmt.Sprintf("detx.replayed %d %d", i, nTx), "identical="+fmt.Sprint(diff == ""))
+	}
+	if len(files) == 0 {
+		w.hit("C20", "harness: no history files to replay")
+	}
+	out.add(w, map[string]int{})
+	out.write(t, "detx")
 }
